@@ -1324,6 +1324,8 @@ class SetVal:
         self.items = list(items or [])
 
     def add(self, interp, v):
+        if isinstance(v, (ByteArr, list, dict, SetVal)):
+            raise PyExc("TypeError", "unhashable type: '%s'" % ("bytearray" if isinstance(v, ByteArr) else type(v).__name__))
         for x in self.items:
             r = interp.py_eq(x, v)
             if r is True:
